@@ -9,7 +9,8 @@
    called with numeric_only=True and the specification ignores that column.
 
    A reduction is a fold over a LANE: the cells of one column in row order
-   (axis = 0) or the cells of one row in column order (axis = 1).  Nothing
+   (axis = 0), the cells of one row in column order (axis = 1), or all cells
+   of all columns (axis = None).  Nothing
    here mentions partitions or split_every: the property says precisely that
    the result depends on neither.
 
@@ -144,7 +145,8 @@ Res(k, ix, v) == [k |-> k, ix |-> ix, v |-> v, err |-> FALSE]
 \* A case: [fam, op, tgt, ax, sk, fl, p, cols, rows, scol]
 \*   fam  "fold" | "rat" | "idx" | "nuniq" | "vc" | "mode" | "top" | "len" | "cov" | "desc"
 \*   tgt  "frame" | "series" (the series is the first column of cols)
-\*   ax   0 | 1          sk  skipna (fold rat idx) / dropna (nuniq vc mode)
+\*   ax   0 | 1 | 2 = axis None (fold except count, rat; frames only)
+\*   sk   skipna (fold rat idx) / dropna (nuniq vc mode)
 \*   fl   normalize (vc)
 \*   p    min_count (sum prod) | ddof (var std sem) | n (top)
 \*        | vc: 0 = sort=True descending, 1 = sort=True ascending, 2 = sort left at its default (order free)
@@ -154,13 +156,20 @@ LaneVal(c, l, labels) ==
     [] c.fam = "idx"   -> IdxFold(c.op, l, labels, c.sk)
     [] c.fam = "nuniq" -> NUnique(l, c.sk)
 
+\* axis = None (ax = 2, frames only): ONE lane holding all cells of all columns (column after column;
+\* the folds that accept axis=None do not depend on the order) and a scalar result
+RECURSIVE Concat(_)
+Concat(ss) == IF ss = <<>> THEN <<>> ELSE Head(ss) \o Concat(Tail(ss))
+AllCells(c) == Concat([j \in DOMAIN c.cols |-> Col(c.rows, c.cols[j])])
+
 Lanewise(c) ==
   LET labels == Idxs(c.rows)
       vals   == IF c.tgt = "series" THEN <<LaneVal(c, Col(c.rows, c.cols[1]), labels)>>
+                ELSE IF c.ax = 2 THEN <<LaneVal(c, AllCells(c), <<>>)>>
                 ELSE IF c.ax = 0 THEN [j \in DOMAIN c.cols |-> LaneVal(c, Col(c.rows, c.cols[j]), labels)]
                 ELSE [i \in DOMAIN c.rows |-> LaneVal(c, RowCells(c.rows[i], c.cols), ColPositions(c.cols))]
   IN IF c.fam = "idx" /\ \E j \in DOMAIN vals : vals[j] = ERR THEN Failure
-     ELSE IF c.tgt = "series" THEN Res("scalar", <<>>, vals)
+     ELSE IF c.tgt = "series" \/ c.ax = 2 THEN Res("scalar", <<>>, vals)
      ELSE IF c.ax = 0 THEN Res("cols", ColPositions(c.cols), vals)
      ELSE Res("rows", labels, vals)
 
